@@ -217,3 +217,30 @@ def c15_5(ctx):
     it = single_assign(f3, 'item')
     if it is None or N(it) != NS("[d[p[1:]] if p.startswith('%') else p for p in path]"):
         ctx.fail(f3, f3.node, '_table_to_tree item is `%s`' % (U(it) if it is not None else '?'))
+
+
+@obligation('C15.6', 'PATH (symbolic summary)', '_dict:tree_getitem, _dict:tree_get',
+            'tree_getitem(t, path) returns the leaf for every path listed by tree_keys/tree_items: those paths are sequences of KEYS (a key may contain a dot), so only a path given as one string is split on dots; the members of a list/tuple path are used as they are',
+            axioms=())
+def c15_6(ctx):
+    for name in ('tree_getitem', 'tree_get'):
+        f = ctx.repo.fn('_dict:%s' % name)
+        item = f.params[1]
+        seen = set()
+        for p in sym_paths(f):
+            v = p.env.get('items')
+            if v is None:
+                continue
+            ctx.count(1, f.where())
+            isstr = 'str' if p.holds('isinstance(%s, str)' % item, True) else 'seq' if p.holds('isinstance(%s, str)' % item, False) else None
+            if isstr is None:
+                ctx.fail(f, f.node, '%s: the path `%s` is parsed as `%s` without first asking whether it is a string' % (name, item, N(v)), stmt=v)
+                break
+            seen.add(isstr)
+            want = NS("%s.split('.')" % item) if isstr == 'str' else 'as_list(%s)' % item
+            if N(v) != want:
+                ctx.fail(f, f.node, '%s: a %s path is parsed as `%s`, expected `%s` (keys inside a list/tuple are never split: a key may contain dots)' % (name, 'string' if isstr == 'str' else 'list/tuple', N(v), want), stmt=v,
+                         witness="tree_getitem({'a.b': 1}, ['a.b']) == 1")
+                break
+        if not ctx.findings and seen != {'str', 'seq'}:
+            ctx.fail(f, f.node, '%s no longer distinguishes a dotted string from a sequence of keys' % name)
